@@ -623,7 +623,9 @@ def run_c14(tier):
             progs.append(p)
         weird = gen_c14.weird_name_matrix()
         if tier == "quick":
-            weird = [w for k, w in enumerate(weird) if k % 4 == seed_offset % 4]
+            # a quarter of the cells, rotating through the positions from name to name (a plain stride would hit the same two
+            # positions for every name)
+            weird = [w for k, w in enumerate(weird) if (k + k // len(gen_c14.POSITIONS)) % 4 == seed_offset % 4]
         for nm, pos, ss in weird:
             p = Program(len(progs), ss, root, f"weird-name:{nm}@{pos}")
             p.port = None
@@ -758,7 +760,8 @@ def run(prop, tier):
         return run_c14(tier)
     q = _quarantine([prop])
     if prop == "C01":
-        check_generic("C01", tier, core_cfgs(q), 48, 2000, sig_c01, [], rule=(
+        wide = [("core-wide-facets", gen.cfg_with(files=(1, 2), quarantine=q, wide_facets=0.8, simple_per_file=(3, 5), complex_per_file=(1, 2)))]
+        check_generic("C01", tier, core_cfgs(q) + wide, 50, 2000, sig_c01, [], rule=(
             "random schema sets over the DESIGN §2 grammar (profiles core, core-many-files, core-keywords, wsdl; one program per "
             "seed sub-stream), generated by the real zeep-lib, emitted file compiled with rustc --emit=metadata against the six "
             "documented crates only. Non-trivial = every program (all contain >= 1 component); distinct = structural fingerprint of "
